@@ -1069,23 +1069,30 @@ Section Logic.
     jauto.
   Qed.
 
-  Lemma J_hoct_coeff res : J (fun _ => True) (hoct_coeff R res).
-  Proof. unfold hoct_coeff. jauto. Qed.
+  Lemma J_rd_wide n : J (fun _ => True) (rd_wide R fuel n).
+  Proof. unfold rd_wide. jauto. Qed.
 
-  Lemma J_hoct_entry res : J (fun _ => True) (hoct_entry R res).
+  Lemma J_hoct_coeff res : J (fun _ => True) (hoct_coeff R fuel res).
+  Proof.
+    unfold hoct_coeff.
+    Ltac jsub ::= first [ apply J_rd_wide ].
+    jauto.
+  Qed.
+
+  Lemma J_hoct_entry res : J (fun _ => True) (hoct_entry R fuel res).
   Proof.
     unfold hoct_entry. eapply J_bind_true; [apply J_flag|]. intros f. destruct f; [|apply J_ret; exact I].
     eapply J_bind_true; [eapply J_true; apply (J_rep (fun _ => True)); apply J_hoct_coeff|]. intro. apply J_ret. exact I.
   Qed.
 
-  Lemma J_hoct_leaf p res : J (fun _ => True) (hoct_leaf R p res).
+  Lemma J_hoct_leaf p res : J (fun _ => True) (hoct_leaf R fuel p res).
   Proof.
     unfold hoct_leaf. eapply J_bind_true; [|intro; apply J_ret; exact I].
     eapply J_true. apply (J_rep (fun _ => True)). eapply J_true. apply (J_rep (fun _ => True)). apply J_hoct_entry.
   Qed.
 
   (* the recursion is on the remaining depth: at most 8^3 leaves *)
-  Lemma J_hoctants : forall d p res, J (fun _ => True) (hoctants R d p res).
+  Lemma J_hoctants : forall d p res, J (fun _ => True) (hoctants R fuel d p res).
   Proof.
     induction d as [|d IH]; intros p res; cbn [hoctants].
     - eapply J_bind_true; [apply J_hoct_leaf|]. intro. jauto.
